@@ -1,5 +1,5 @@
-\* C06 thorough (safety): 3 nodes, 2 ids, clock 0..1, no tombstone collection, 2 CAS, 1 fault (partition or restart;
-\* garbage and blocking watchers are covered by the 2-node configurations).
+\* C06 thorough (safety): 3 nodes, 2 ids, clock 0..1, no tombstone collection, 2 CAS, 1 fault
+\* (partition or restart).
 CONSTANTS
   N = 3
   NI = 2
@@ -15,6 +15,11 @@ CONSTANTS
   AllowGarbage = FALSE
   AllowPartition = TRUE
   AllowJunkPP = FALSE
+  GateNodes = {}
+  InboxCap = 1
+  VersionTest = TRUE
+  MaxDel = 0
+  ObsoleteTimeout = 1
   ConsumeNet = FALSE
   Ideal = TRUE
   Ghost = TRUE
@@ -24,6 +29,6 @@ CONSTANTS
   QRounds = 2
 SPECIFICATION Spec
 VIEW view
-INVARIANTS TypeOK TombstonesInvisible InvalidationSafe NoInventedContent SentIsWritten WatcherNeverStale VersionCountsChanges
-PROPERTIES TombstonesForwarded NoResurrection GCOnlyExpired NoExpiredTombstoneStored OnlyChangesForwarded
+INVARIANTS TypeOK TombstonesInvisible InvalidationSafe NoInventedContent SentIsWritten WatcherNeverStale PrefixWatcherNeverStale VersionCountsChanges
+PROPERTIES TombstonesForwarded NoResurrection GCOnlyExpired NoExpiredTombstoneStored OnlyChangesForwarded DeletedStaysDeleted RemovedOnlyWhenObsolete DeletedNotRevived
 CHECK_DEADLOCK FALSE
